@@ -222,6 +222,21 @@ class Context:
             self.solver_s += time.time() - t0
             if rc == "unsat":
                 return z3.unsat
+            # still undecided (a busy machine stretches the wall-clock budgets): fresh z3 instances, other seeds, four times the budget
+            for k in (1, 2):
+                s3 = z3.Solver()
+                s3.set("timeout", self.feas_timeout_ms * 4)
+                s3.set("random_seed", 7919 * k)
+                s3.add(*self.solver.assertions())
+                s3.add(t)
+                t0 = time.time()
+                self.queries += 1
+                r3 = s3.check()
+                self.solver_s += time.time() - t0
+                if r3 == z3.unsat:
+                    return z3.unsat
+                if r3 == z3.sat:
+                    return z3.unknown  # satisfiable, but the model lives in another solver instance: callers treat unknown as feasible
         return r
 
     # ---- decisions
